@@ -64,6 +64,43 @@ def run_buffer(timeout, script, form):
     return flushes
 
 
+def run_buffer2(timeout, script, form):
+    """TWO buffered functions on one loop.  script: ['sub', j, a] | ['adv', ticks] (j = function).
+    form 'direct': two direct wrappings buffer_until_timeout(f_j, timeout=...);
+    form 'deco'  : ONE options-form decorator object applied to both functions.
+    Returns [flushes of function 0, flushes of function 1]."""
+    logging.disable(logging.CRITICAL)
+    from aiuti.asyncio import buffer_until_timeout
+    sim = vloop.Sim()
+    flushes = [[], []]
+    kw = {} if timeout is None else {'timeout': timeout * TICK}
+    box = {}
+
+    def mk(j):
+        async def bf(args):
+            flushes[j].append([t5(sim), sorted(int(a) for a in args)])
+        return bf
+
+    def before():
+        if form == 'direct':
+            box['b'] = [buffer_until_timeout(mk(0), **kw), buffer_until_timeout(mk(1), **kw)]
+        else:
+            deco = buffer_until_timeout(**kw)
+            box['b'] = [deco(mk(0)), deco(mk(1))]
+
+    def handler(ev):
+        if ev[0] == 'sub':
+            box['b'][ev[1]](ev[2])
+
+    try:
+        sim.run([tuple(e) for e in script], handler, before)
+    finally:
+        sim.close()
+    if sim.spun:
+        flushes[0].append([0, [EXC]])
+    return flushes
+
+
 # ---------------------------------------------------------------------------
 # async_background_batcher
 # ---------------------------------------------------------------------------
@@ -219,6 +256,78 @@ def run_batcher(cfg, script, form):
         return o
     finally:
         rig.shutdown()
+
+
+def run_batcher2(cfg, script, form):
+    """TWO batch functions on one loop.  script: ['call', j, key] | ['fin', j, b] | ['adv', ticks]
+    (j = function; b = batch index of THAT function).  form 'direct': two direct wrappings
+    async_background_batcher(bf_j, **opts); form 'deco': ONE options-form decorator object applied to
+    both.  Returns [obs of function 0, obs of function 1] (starts / dones as in run_batcher)."""
+    logging.disable(logging.CRITICAL)
+    from aiuti.asyncio import async_background_batcher
+    kw = batcher_kwargs(cfg)
+    sim = vloop.Sim()
+    recs = [dict(starts=[], gates={}, dones={}, n=0) for _ in range(2)]
+    tasks = []
+
+    def mk(j):
+        rec = recs[j]
+
+        async def bf(batch):
+            b = len(rec['starts'])
+            keys = []
+            for k, a in batch:
+                try:
+                    keys.append(int(k))
+                except Exception:
+                    keys.append(BADRES)
+            rec['starts'].append([t5(sim), keys])
+            fut = sim.loop.create_future()
+            rec['gates'][b] = fut
+            await fut
+            for k, a in batch:
+                yield k, ('res', j, b)
+        return bf
+
+    if form == 'direct':
+        ws = [async_background_batcher(mk(0), **kw), async_background_batcher(mk(1), **kw)]
+    else:
+        deco = async_background_batcher(**kw)
+        ws = [deco(mk(0)), deco(mk(1))]
+
+    async def caller(j, c, k):
+        rec = recs[j]
+        try:
+            r = await ws[j](k)
+        except asyncio.CancelledError:
+            raise
+        except BaseException:
+            rec['dones'][c] = [t5(sim), EXC]
+            return
+        if isinstance(r, tuple) and len(r) == 3 and r[0] == 'res' and r[1] == j:
+            rec['dones'][c] = [t5(sim), r[2]]
+        else:
+            rec['dones'][c] = [t5(sim), BADRES]
+
+    def handler(ev):
+        if ev[0] == 'call':
+            rec = recs[ev[1]]
+            c = rec['n']
+            rec['n'] += 1
+            tasks.append(sim.loop.create_task(caller(ev[1], c, ev[2])))
+        elif ev[0] == 'fin':
+            f = recs[ev[1]]['gates'].get(ev[2])
+            if f is not None and not f.done():
+                f.set_result(None)
+
+    try:
+        sim.run([tuple(e) for e in script], handler)
+        if sim.spun:
+            recs[0]['dones'][recs[0]['n']] = [0, EXC]
+            recs[0]['n'] += 1
+        return [dict(starts=r['starts'], dones=[r['dones'].get(c) for c in range(r['n'])]) for r in recs]
+    finally:
+        sim.close()
 
 
 def run_loops(cfg, plan, form='deco'):
